@@ -90,10 +90,10 @@ def run_case(case):
                     counters["write_rejected"] = 1
                     return res
         elif case["src"] == "refpq":
-            from vf.ref import writer as RW
+            from vf.gen import recipes as RC
             path = C.fresh_path(".parq")
             cleanup = True
-            RW.write_recipe(case["recipe"], path)
+            RC.write_recipe(case["recipe"], path)
         else:
             path = case["path"]
         rng = np.random.default_rng([case["oseed"], 3])
